@@ -558,21 +558,17 @@ func rawScanRule(c *Ctx, rule string, tt *tokenTable) {
 					}
 				}
 				// the token right after `::` (the type name is adjacent by grammar)
-				afterCast := false
-				for d := b; d != nil; d = d.Idom() {
-					ifi, ok := d.Instrs[len(d.Instrs)-1].(*ssa.If)
-					if !ok || d == b {
-						continue
-					}
-					bo, ok := ifi.Cond.(*ssa.BinOp)
-					if !ok || bo.Op != token.EQL {
-						continue
-					}
-					if k, ok := bo.Y.(*ssa.Const); ok && k.Value != nil && types.Identical(k.Type(), tt.Type) {
-						tv, _ := constant.Int64Val(k.Value)
-						if tt.Name[tv] == "DOUBLECOLON" && (d.Succs[0] == b || d.Succs[0].Dominates(b)) {
-							afterCast = true
+				afterCast := blockAfterToken(b, "DOUBLECOLON", tt)
+				// a helper that is only ever called right after `::` was consumed
+				if !afterCast {
+					if sites := callSitesOf(p, fn); len(sites) > 0 {
+						all := true
+						for _, site := range sites {
+							if !blockAfterToken(site.Block(), "DOUBLECOLON", tt) {
+								all = false
+							}
 						}
+						afterCast = all
 					}
 				}
 				var bad []string
@@ -662,4 +658,47 @@ func regexStartRule(c *Ctx, tt *tokenTable) {
 	} else {
 		c.Unk("C16.regexstart", key, cw.Pos(), "skip set not recognised")
 	}
+}
+
+// blockAfterToken: b is entered only through the true branch of a test
+// `tok == <name>` (b is that successor or dominated by it).
+func blockAfterToken(b *ssa.BasicBlock, name string, tt *tokenTable) bool {
+	for d := b; d != nil; d = d.Idom() {
+		ifi, ok := d.Instrs[len(d.Instrs)-1].(*ssa.If)
+		if !ok || d == b {
+			continue
+		}
+		bo, ok := ifi.Cond.(*ssa.BinOp)
+		if !ok || (bo.Op != token.EQL && bo.Op != token.NEQ) {
+			continue
+		}
+		succ := d.Succs[0]
+		if bo.Op == token.NEQ {
+			succ = d.Succs[1]
+		}
+		if k, ok := bo.Y.(*ssa.Const); ok && k.Value != nil && types.Identical(k.Type(), tt.Type) {
+			tv, _ := constant.Int64Val(k.Value)
+			if tt.Name[tv] == name && (succ == b || succ.Dominates(b)) {
+				return true
+			}
+		}
+	}
+	return false
+}
+
+// callSitesOf returns the static call sites of fn in the package.
+func callSitesOf(p *Program, fn *ssa.Function) []*ssa.Call {
+	var out []*ssa.Call
+	for _, g := range p.SrcFuncs() {
+		for _, f := range append([]*ssa.Function{g}, g.AnonFuncs...) {
+			for _, b := range f.Blocks {
+				for _, in := range b.Instrs {
+					if call, ok := in.(*ssa.Call); ok && call.Call.StaticCallee() == fn {
+						out = append(out, call)
+					}
+				}
+			}
+		}
+	}
+	return out
 }
